@@ -257,8 +257,8 @@ func c05DupIsSuccess(c *Ctx) {
 func c05Rollover(c *Ctx) {
 	p := c.P
 	rule := "C05.rollover"
-	c.Doc(rule, "brokerProducer.run: on the path where buffer.producerEpoch != msg.producerEpoch (idempotent), waitForSpace(msg, true) precedes buffer.add(msg)")
-	c.Floor(rule, 1)
+	c.Doc(rule, "brokerProducer.run: buffer.add(msg) is reached only over edges on which the producer is not idempotent or buffer.producerEpoch == msg.producerEpoch, or after waitForSpace(msg, true); waitForSpace returns nil only after rollOver() unless its forceRollover parameter is false")
+	c.Floor(rule, 3)
 	fn := c.NeedFn(rule, "brokerProducer.run")
 	if fn == nil {
 		return
@@ -292,6 +292,23 @@ func c05Rollover(c *Ctx) {
 		it, path := r2.Reach(IsItem(a), forced)
 		c.Check(it.IsZero(), rule, fn, "rollover-before-add", a.Instr(), "buffer.add is reached only with equal epochs, a non-idempotent producer, or after a forced rollover",
 			"a message can be added to a buffer created under another producer epoch without a forced rollover (e.g. when the stale buffer is empty): the batch is stamped with the old epoch and the broker answers duplicate/out-of-order", path)
+	}
+	// the forced rollover is honoured by waitForSpace: it reports success (nil) only after rollOver(), unless the
+	// caller did not force it
+	if wf := c.NeedFn(rule, "brokerProducer.waitForSpace"); wf != nil {
+		wreg := WholeFn(wf)
+		rets := wreg.Find(ReturnNilErr())
+		if len(rets) == 0 {
+			c.Unresolved(rule, "successful return of waitForSpace")
+		}
+		r3 := *wreg
+		notForced := Truth{ParamN(2), false}
+		r3.Cut = func(from, to *ssa.BasicBlock) bool { return Establishes(from, to, notForced) }
+		for _, r := range rets {
+			it, path := r3.Reach(IsItem(r), p.CallTo("brokerProducer.rollOver"))
+			c.Check(it.IsZero(), rule, wf, "forced-rollover-honoured", r.Instr(), "waitForSpace returns nil only after rollOver(), or when the rollover was not forced",
+				"waitForSpace(msg, true) can report success without having rolled the buffer over (for instance when the buffer is empty): the caller adds the message to the buffer of the previous epoch", path)
+		}
 	}
 }
 
